@@ -151,7 +151,14 @@ def digests_for(seed, n, tier="quick"):
     out = []
     for i in range(n):
         r = sub_rng(seed, "C07", "repro", i)
-        scn = gen_repro(r, tier)
+        if i % 2:
+            # retried and fresh operators of one pipeline waiting together: any hash-ordered choice among them shows
+            scn = sysgen.gen(r, r.choice(["priority", "priority", "overbook", "naive"]), "C17", tier)
+            scn["cfg"]["multi"] = False
+            scn["cfg"]["over"] = scn["cfg"]["algo"] == "overbook"
+            scn["u2"] = r.randint(1, 10 ** 9)
+        else:
+            scn = gen_repro(r, tier)
         d, s, o, rec = run_digest(scn, {"uuid_seed": scn["u2"] + 5, "container_offset": 3}, "pipes" not in scn)
         out.append([d, digest(s)])
     return out
